@@ -55,6 +55,56 @@ def label_index(variant):
     return _label_index[variant]
 
 
+_recursive_index = {}
+
+
+def recursive_index(variant):
+    """shipped seen-rule pairs whose result is one of its own children's categories (so that a derivation can be as
+    deep as the sentence is long), and those where a shipped unary rule leads from the result back to a child's
+    category (two levels per word): {'right': [...], 'left': [...], 'cycle': [...]} of (x, y)"""
+    if variant not in _recursive_index:
+        from depccg.cat import Category
+        lang = 'ja' if variant == 'ja' else 'en'
+        binary, _ = grammars.real_grammar(lang)
+        utab = grammars.unary_table(variant)
+        _, unary = grammars.real_grammar(lang, None, utab)
+        pairs, _, _ = gen.seen_index(variant)
+        ures = {}
+        for src in utab:
+            try:
+                ures[str(src)] = [str(u.cat) for u in unary(src)]
+            except Exception:
+                pass
+        idx = {'right': [], 'left': [], 'cycle_right': [], 'cycle_left': []}
+        for x, y in pairs:
+            try:
+                res = binary(Category.parse(x), Category.parse(y))
+            except Exception:
+                continue
+            for r in res[:1]:
+                c = str(r.cat)
+                if c == y:
+                    idx['right'].append((x, y))
+                if c == x:
+                    idx['left'].append((x, y))
+                if y in ures.get(c, ()):
+                    idx['cycle_right'].append((x, y))
+                if x in ures.get(c, ()):
+                    idx['cycle_left'].append((x, y))
+        _recursive_index[variant] = {k: sorted(set(v)) for k, v in idx.items()}
+    return _recursive_index[variant]
+
+
+def tree_levels(tree):
+    best, stack = 0, [(tree, 1)]
+    while stack:
+        node, d = stack.pop()
+        best = max(best, d)
+        if not node.is_leaf:
+            stack.extend((c, d + 1) for c in node.children)
+    return best
+
+
 UNUSUAL = ['"', "'", "it's", '&', '&amp;', '<', '>', 'a<b', '</s>', 'x>y', '%', '\\', '日本', 'é', '(', ')', '[', '{', 'a|b', '#',
            '1,000', 'U.S.', ';', '--', '*', '_', 'a_b', '?', '!']
 
@@ -212,19 +262,122 @@ class C19(ParserSessionProp):
         stats['samples'].append({'corpus': c, 'sentences': len(doc), 'distinct_categories': len(cats)})
         return {'violations': violations[:1], 'stats': stats, 'log_digest': digest((c, len(doc), [v['oracle'] for v in violations]))}
 
+    deep_every = {'quick': 90, 'thorough': 60}
+
+    def deep_run(self, index, tier):
+        e = self.deep_every.get(tier, 0)
+        return bool(e) and index % e == e // 2
+
+    def generate_deep(self, seed, index, tier, options):
+        rng = gen.stream(seed, 'C19:deep', index)
+        variant = rng.choice(['en', 'en_rebank', 'ja'])
+        idx = recursive_index(variant)
+        kind = rng.choice([k for k in ('right', 'left', 'cycle_right', 'cycle_left', 'cycle_right', 'cycle_left') if idx[k]])
+        # sentences up to the default max_length of 250 words; with a unary step at every level the derivation has
+        # two levels per word (beyond ~450 levels several formats exhaust the interpreter's stack: known finding)
+        n = rng.choice([60, 120, 165, 200, 215] if kind.startswith('cycle') else [120, 165, 200, 250, 250])
+        if kind.startswith('cycle') and rng.random() < 0.12:
+            n = 250
+        return {'prop': self.id, 'seed': seed, 'index': index, 'deep': {
+            'variant': variant, 'kind': kind, 'pick': rng.randrange(len(idx[kind])), 'words': n,
+            'layout': rng.sample(['deep', 'short', 'placeholder'], 3), 'token_style': rng.choice(['plain', 'rich'])}}
+
+    def execute_deep(self, spec):
+        """a batch of three: a sentence whose derivation is a chain as deep as the sentence is long (or twice that, with
+        a shipped unary rule at every level), a short sentence and a failure placeholder, in every CLI format"""
+        from depccg.cat import Category
+        from depccg.tree import Tree, ScoredTree
+        from depccg.types import Token
+        from depccg.printer import to_string
+        from depccg.lang import set_global_language_to, get_global_language
+        d = spec['deep']
+        variant = d['variant']
+        lang = 'ja' if variant == 'ja' else 'en'
+        stats = new_stats()
+        binary, _ = grammars.real_grammar(lang)
+        _, unary = grammars.real_grammar(lang, None, grammars.unary_table(variant))
+        x, y = recursive_index(variant)[d['kind']][d['pick']]
+        cx, cy = Category.parse(x), Category.parse(y)
+        r = binary(cx, cy)[0]
+        rightward = d['kind'] in ('right', 'cycle_right')
+        back = str(cy if rightward else cx)
+        ur = None
+        if d['kind'].startswith('cycle'):
+            ur = [u for u in unary(r.cat) if str(u.cat) == back][0]
+
+        def tok(w):
+            if d['token_style'] == 'rich' and lang == 'en':
+                return Token(word=w, lemma=w, pos='NN', entity='O', chunk='I-NP')
+            return Token.of_word(w)
+
+        def chain(n):
+            t = Tree.make_terminal(tok('w0'), cy if rightward else cx)
+            for i in range(1, n):
+                leaf = Tree.make_terminal(tok(f'w{i}'), cx if rightward else cy)
+                t = (Tree.make_binary(r.cat, leaf, t, r.op_string, r.op_symbol, r.head_is_left) if rightward
+                     else Tree.make_binary(r.cat, t, leaf, r.op_string, r.op_symbol, r.head_is_left))
+                if ur is not None and i < n - 1:
+                    t = Tree.make_unary(ur.cat, t, ur.op_string, ur.op_symbol)
+            return t
+
+        def make_doc():
+            parts = {'deep': [ScoredTree(chain(d['words']), -3.0)], 'short': [ScoredTree(chain(2), -1.0)],
+                     'placeholder': [ScoredTree(Tree.make_terminal('FAILED', Category.parse('NP')), -float('inf'))]}
+            return [parts[k] for k in d['layout']]
+        levels = tree_levels(chain(d['words']))
+        bump(stats, 'deep_runs')
+        stats['counters']['deepest_derivation_levels'] = levels
+        stats['counters']['longest_rendered_sentence_words'] = d['words']
+        violations = []
+        saved = get_global_language()
+        set_global_language_to(lang)
+        try:
+            for fmt in cli_formats(lang):
+                bump(stats, 'evaluations')
+                add_set(stats, 'nontrivial', digest(('deep', variant, d['kind'], d['pick'], d['words'], fmt)))
+                sig = {'format': fmt, 'lang': lang, 'trigger': 'deep',
+                       'derivation_levels': 'at least 450' if levels >= 450 else str(levels)}
+                try:
+                    text = to_string(make_doc(), fmt)
+                except Exception as e:  # noqa
+                    violations.append(Violation(
+                        property=self.id, oracle='renders_without_error',
+                        message=(f'{lang} batch {d["layout"]} whose deep sentence has {d["words"]} words and a derivation of '
+                                 f'{levels} levels ({x} {y} -> {r.cat}{" -> " + str(ur.cat) if ur else ""}) cannot be rendered as '
+                                 f'{fmt}: {type(e).__name__}: {str(e)[:100]}'),
+                        signature=dict(sig, exc=type(e).__name__)))
+                    continue
+                if fmt not in LINE_FORMATS:
+                    n_records = count_records(text, fmt)
+                    if n_records != 3:
+                        violations.append(Violation(
+                            property=self.id, oracle='one_record_per_sentence',
+                            message=f'{fmt}: {n_records} sentence records for a batch of 3 (one of {d["words"]} words)',
+                            signature={'format': fmt, 'lang': lang}))
+        finally:
+            set_global_language_to(saved)
+        stats['samples'].append({'deep': d, 'levels': levels})
+        return {'violations': violations, 'stats': stats,
+                'log_digest': digest((d, levels, [(v['oracle'], v['signature'].get('format')) for v in violations]))}
+
     def execute(self, spec, executor_mode=None):
         if 'corpus' in spec:
             return self.execute_corpus(spec)
+        if 'deep' in spec:
+            return self.execute_deep(spec)
         return super().execute(spec, executor_mode)
 
     def prepare(self):
         for v in ('en', 'en_rebank', 'ja'):
             label_index(v)
+            recursive_index(v)
         cli_formats('en')
 
     def generate(self, seed, index, tier, options):
         if self.corpus_run(index, tier):
             return self.generate_corpus(seed, index, tier, options)
+        if self.deep_run(index, tier):
+            return self.generate_deep(seed, index, tier, options)
         rng = gen.stream(seed, 'C19:label', index)
         variant = rng.choice(['en', 'en_rebank', 'ja', 'ja'])
         idx = label_index(variant)
@@ -364,11 +517,18 @@ class C19(ParserSessionProp):
     def shrink_candidates(self, spec):
         if 'corpus' in spec:
             return
+        if 'deep' in spec:
+            for n in (60, 120, 165, 200, 215, 226, 240):
+                if n < spec['deep']['words']:
+                    cand = copy.deepcopy(spec)
+                    cand['deep']['words'] = n
+                    yield cand
+            return
         for c in super().shrink_candidates(spec):
             yield c
 
     def confirm(self, spec, violation):
-        if 'corpus' in spec:
+        if 'corpus' in spec or 'deep' in spec:
             return True, 'no pooled call'
         return super().confirm(spec, violation)
 
